@@ -1564,6 +1564,9 @@ func runC08(r *Run) {
 	if r.ReplayFile != "" {
 		return
 	}
+	// overlapping store updates, and the expiry registration sites (manager level)
+	lcStoreRace(r)
+	c09ManagerScenarios(r)
 	for c := 0; c < r.N; c++ {
 		n := 5 + r.Rng.Intn(21)
 		ops := lcRunHistory(r, nil, n, -1, "base")
